@@ -51,13 +51,14 @@ Definition is_close (it : item) : bool := match it with IClose => true | _ => fa
 (* error classes of return values *)
 Inductive err :=
 | ENil | EOutClosed | EInClosed | EStream | ETimeout | ECtxDeadline | ECtxCanceled
-| EHandler | EBad | EOpen.
+| EHandler | EBad | EOpen
+| EWrite.   (* the connection's error for the write of the closing tag *)
 
 Definition err_eqb (a b : err) : bool :=
   match a, b with
   | ENil, ENil | EOutClosed, EOutClosed | EInClosed, EInClosed | EStream, EStream
   | ETimeout, ETimeout | ECtxDeadline, ECtxDeadline | ECtxCanceled, ECtxCanceled
-  | EHandler, EHandler | EBad, EBad | EOpen, EOpen => true
+  | EHandler, EHandler | EBad, EBad | EOpen, EOpen | EWrite, EWrite => true
   | _, _ => false
   end.
 
@@ -89,9 +90,12 @@ Inductive op :=
 | OGFlush                 (* lockWriteCloser.Flush / Close: tests the bit itself *)
 | OTest                   (* sendError's test of OutputStreamClosed: closed: give up (the error register is kept) *)
 | OMark                   (* closeSession, first half: stateMutex.Lock(); test-and-set of the bit; Unlock() *)
-| OWriteTag               (* closeSession, second half: the closing tag, written to the connection directly, if this call set the bit *)
+| OWriteTag (rep : bool)  (* closeSession, second half: the closing tag, written to the connection directly, if this call set the bit;
+                             if the connection refuses the write its error is returned: sendError returns it in place of its own
+                             (rep), Close and Serve's deferred Close report it unless an earlier error is pending *)
 | OSLock | OSUnlock       (* s.stateMutex.Lock() / Unlock() held across steps (only the pinned design of Close does that) *)
 | OStall (b : bool)       (* environment: the peer stops (true) / resumes (false) reading what the session writes *)
+| OFault                  (* environment: from now on the connection refuses the write of the closing tag *)
 | ORet                    (* return the error register *)
 | OSetDeadline (m : dmode) (* SetCloseDeadline(t): t later / t already passed / the zero time *)
 | OFire (j : nat)         (* the deadline that the SetCloseDeadline call of actor j asked for passes *)
@@ -110,7 +114,9 @@ Inductive op :=
    write to the connection completes); o_pend: the bit is set and the closing
    tag is still to be written by the call that set it *)
 Record outg := mkO { o_lock : option nat; o_cl : bool; o_buf : list item; o_wire : list item;
-                     o_sl : option nat; o_rdy : bool; o_pend : bool }.
+                     o_sl : option nat; o_rdy : bool; o_pend : bool;
+                     o_att : nat;      (* write attempts of the closing tag on the connection *)
+                     o_wfail : bool    (* the connection refuses the closing tag *) }.
 
 (* The close deadline is state that every SetCloseDeadline call REPLACES:
    i_gen is the call (actor) whose deadline is in force, i_armed says that it
@@ -149,21 +155,26 @@ Definition upd (f : nat -> actor) (i : nat) (a : actor) : nat -> actor :=
 (* ---- output-side primitives ---- *)
 
 Definition o_emit (o : outg) (it : item) : outg :=
-  mkO (o_lock o) (o_cl o) (o_buf o ++ [it]) (o_wire o) (o_sl o) (o_rdy o) (o_pend o).
+  mkO (o_lock o) (o_cl o) (o_buf o ++ [it]) (o_wire o) (o_sl o) (o_rdy o) (o_pend o) (o_att o) (o_wfail o).
 Definition o_flush (o : outg) : outg :=
-  mkO (o_lock o) (o_cl o) [] (o_wire o ++ o_buf o) (o_sl o) (o_rdy o) (o_pend o).
+  mkO (o_lock o) (o_cl o) [] (o_wire o ++ o_buf o) (o_sl o) (o_rdy o) (o_pend o) (o_att o) (o_wfail o).
 (* closeSession under the state lock: test-and-set; the call that sets the bit owes the tag *)
 Definition o_mark (o : outg) : outg :=
-  if o_cl o then o else mkO (o_lock o) true (o_buf o) (o_wire o) (o_sl o) (o_rdy o) true.
+  if o_cl o then o else mkO (o_lock o) true (o_buf o) (o_wire o) (o_sl o) (o_rdy o) true (o_att o) (o_wfail o).
 (* ... and writes it after releasing the state lock; it bypasses the encoder and its buffer *)
 Definition o_writetag (o : outg) : outg :=
-  if o_pend o then mkO (o_lock o) (o_cl o) (o_buf o) (o_wire o ++ [IClose]) (o_sl o) (o_rdy o) false else o.
+  if o_pend o
+  then mkO (o_lock o) (o_cl o) (o_buf o) (if o_wfail o then o_wire o else o_wire o ++ [IClose])
+           (o_sl o) (o_rdy o) false (S (o_att o)) (o_wfail o)
+  else o.
 Definition o_setlock (o : outg) (l : option nat) : outg :=
-  mkO l (o_cl o) (o_buf o) (o_wire o) (o_sl o) (o_rdy o) (o_pend o).
+  mkO l (o_cl o) (o_buf o) (o_wire o) (o_sl o) (o_rdy o) (o_pend o) (o_att o) (o_wfail o).
 Definition o_setsl (o : outg) (l : option nat) : outg :=
-  mkO (o_lock o) (o_cl o) (o_buf o) (o_wire o) l (o_rdy o) (o_pend o).
+  mkO (o_lock o) (o_cl o) (o_buf o) (o_wire o) l (o_rdy o) (o_pend o) (o_att o) (o_wfail o).
 Definition o_setrdy (o : outg) (b : bool) : outg :=
-  mkO (o_lock o) (o_cl o) (o_buf o) (o_wire o) (o_sl o) b (o_pend o).
+  mkO (o_lock o) (o_cl o) (o_buf o) (o_wire o) (o_sl o) b (o_pend o) (o_att o) (o_wfail o).
+Definition o_setfault (o : outg) : outg :=
+  mkO (o_lock o) (o_cl o) (o_buf o) (o_wire o) (o_sl o) (o_rdy o) (o_pend o) (o_att o) true.
 
 (* ---- input-side primitives ---- *)
 
@@ -201,7 +212,7 @@ Definition i_closeinput (g : ing) : ing :=
 
 (* Close: the output lock, then closeSession *)
 Definition close_code : list op :=
-  [OYield PCloseEnter; OLock; OYield PCloseLocked; OMark; OWriteTag; OUnlock; ORet].
+  [OYield PCloseEnter; OLock; OYield PCloseLocked; OMark; OWriteTag false; OUnlock; ORet].
 
 (* the deferred closeInputStream(); Close() *)
 Definition shutdown_code : list op := [OYield PCloseInputEnter; OCloseInput] ++ close_code.
@@ -210,7 +221,7 @@ Definition shutdown_code : list op := [OYield PCloseInputEnter; OCloseInput] ++ 
    otherwise the stream error is encoded (NOT flushed) and the session closed;
    then the deferred shutdown *)
 Definition senderr_code : list op :=
-  [OYield PSendErrEnter; OLock; OYield PSendErrLocked; OTest; OEmit IErr; OMark; OWriteTag; OUnlock] ++ shutdown_code.
+  [OYield PSendErrEnter; OLock; OYield PSendErrLocked; OTest; OEmit IErr; OMark; OWriteTag true; OUnlock] ++ shutdown_code.
 
 Fixpoint skip_to_unlock (k : list op) : list op :=
   match k with
@@ -240,13 +251,16 @@ Definition exec (me : nat) (o : op) (k : list op) (og : outg) (ig : ing) (a : ac
   | OTest => if o_cl og then Some (og, ig, set_code a (skip_to_unlock k))
              else Some (og, ig, set_chk a' true)
   | OMark => Some (o_mark og, ig, set_chk a' false)
-  | OWriteTag => Some (o_writetag og, ig, a')
+  | OWriteTag rep =>
+      Some (o_writetag og, ig,
+            if o_pend og && o_wfail og then (if rep then set_e a' EWrite else first_err a' EWrite) else a')
   | OSLock => match o_sl og with
               | None => Some (o_setsl og (Some me), ig, a')
               | Some _ => None
               end
   | OSUnlock => Some (o_setsl og None, ig, a')
   | OStall b => Some (o_setrdy og (negb b), ig, a')
+  | OFault => Some (o_setfault og, ig, a')
   | ORet => Some (og, ig, set_res a' (Some (a_e a)))
   | OSetDeadline m => Some (og, i_setdeadline me m ig, a')
   | OFire j => Some (og, i_fire j ig, a')
@@ -306,7 +320,7 @@ Definition writes_conn (o : op) (og : outg) : bool :=
   match o with
   | OFlush => nonempty (o_buf og)
   | OGFlush => negb (o_cl og) && nonempty (o_buf og)
-  | OWriteTag => o_pend og
+  | OWriteTag _ => o_pend og && negb (o_wfail og)   (* a refused write returns at once *)
   | _ => false
   end.
 
@@ -340,7 +354,8 @@ Inductive kind :=
 | KPeer (evs : list pev)
 | KServe
 | KProbe
-| KStall (b : bool).          (* the peer stops / resumes reading *)
+| KStall (b : bool)           (* the peer stops / resumes reading *)
+| KFault.                     (* the connection starts refusing the closing tag *)
 
 Definition mem_name (n : bytes) (l : list bytes) : bool := existsb (bytes_eqb n) l.
 
@@ -371,6 +386,7 @@ Definition prog_of (k : kind) : list op :=
   | KServe => [OServeTop]
   | KProbe => [OProbe; ORet]
   | KStall b => [OStall b; ORet]
+  | KFault => [OFault; ORet]
   end.
 
 Definition role_of (k : kind) : role :=
@@ -381,7 +397,7 @@ Definition idle : actor := mkA [] ENil None false CNone RPlain.
 Definition actor_of (k : kind) : actor := mkA (prog_of k) ENil None false CNone (role_of k).
 
 Definition init (dlsup : bool) (ks : list kind) : state :=
-  mkS (mkO None false [] [] None true false)
+  mkS (mkO None false [] [] None true false 0 false)
       (mkI false false [] false false false ENil dlsup None false)
       (fun i => match nth_error ks i with Some k => actor_of k | None => idle end).
 
@@ -403,7 +419,7 @@ Fixpoint safe (h c : bool) (code : list op) : bool :=
       match o with
       | OYield _ | OSetDeadline _ | OPeer _ | ORelIn => safe h c k
       (* neither the state mutex nor the environment's switch is touched by a holder of the output lock *)
-      | OSLock | OSUnlock | OStall _ => negb h && safe h c k
+      | OSLock | OSUnlock | OStall _ | OFault => negb h && safe h c k
       (* operations that can block are not performed while holding the output lock *)
       | OFire _ | OAcqIn | OCloseInput | OProbe => negb h && safe h c k
       | OLock => negb h && safe true false k
@@ -414,7 +430,7 @@ Fixpoint safe (h c : bool) (code : list op) : bool :=
       | OGEmit it => h && negb (is_close it) && safe h c k
       | OGFlush => h && safe h c k
       | OMark => h && safe h false k
-      | OWriteTag => h && safe h c k
+      | OWriteTag _ => h && safe h c k
       | ORet => negb h && safe h c k
       | OServeTop | OServeRead | OExit _ _ _ => negb h
       | OHEmit _ _ => h
@@ -469,6 +485,7 @@ Record ccase := mkcase {
   x_buf : list item;           (* observed: what was left in the encoder buffer *)
   x_res : list (option err);   (* observed: return class of every actor (None: did not return) *)
   x_ocl : bool; x_icl : bool;  (* observed: the two closed bits of State() at the end *)
+  x_att : nat;                 (* observed: write attempts of the closing tag on the connection *)
   x_tag : bytes                (* observed: the bytes of the closing tag ([] if none was written) *)
 }.
 
@@ -485,6 +502,7 @@ Definition case_ok (c : ccase) : bool :=
   list_eqb item_eqb (o_buf (s_o s)) (x_buf c) &&
   list_eqb oerr_eqb (results s (length (c_kinds c))) (x_res c) &&
   Bool.eqb (o_cl (s_o s)) (x_ocl c) && Bool.eqb (i_cl (s_i s)) (x_icl c) &&
+  Nat.eqb (o_att (s_o s)) (x_att c) &&
   bytes_eqb (x_tag c) (if existsb is_close (o_wire (s_o s)) then close_bytes (c_ws c) else []).
 
 Fixpoint failing {A} (ok : A -> bool) (i : nat) (l : list A) : list nat :=
